@@ -475,6 +475,99 @@ def _replay(rep, items):
             rep.note(it[1])
 
 
+def o5(rep):
+    """-Fc asks for the generated C to be kept.  After compiling it to objects emitTheObject tidies up the C files it does not have
+    to keep; when the keep condition holds (emitKeep[FTYPENO_C], not the aldormain unit) no C file may be removed: the main file,
+    the header and the numbered parts of a split unit are all part of the requested output."""
+    from .peval import peval
+    f = common.extract("emit.c", trees=["emitTheObject"], cfg=["emitTheObject"])
+    fn = f.func("emitTheObject")
+    cfg = common.CFG(fn)
+
+    def lookup(n, env):
+        if n["k"] == "ArraySubscriptExpr" and (strip(n["c"][0]) or {}).get("n") == "emitKeep":
+            return 1
+        if n["k"] == "MemberExpr" and n["n"] == "isAXLmain":
+            return 0
+        return None
+
+    def edge_ok(b, s_):
+        ce = cfg.cond_edges(b)
+        if ce is None:
+            return True
+        v = peval(ce[0], {}, lookup)
+        if v is None:
+            return True
+        return s_ == (ce[1] if v else ce[2])
+    removes = cfg.events(lambda n: n["k"] == "CallExpr" and n.get("callee") == "fileRemove")
+    if len(removes) < 2:
+        raise AnalysisBroken("emitTheObject: the removal of the C files was not found")
+    keeps = [y for y in walk(fn["body"]) if y["k"] == "ArraySubscriptExpr" and (strip(y["c"][0]) or {}).get("n") == "emitKeep"]
+    if not keeps:
+        raise AnalysisBroken("emitTheObject no longer consults emitKeep")
+    esc = cfg.path_avoiding(cfg.entry, lambda n: n["k"] == "CallExpr" and n.get("callee") == "fileRemove", lambda n: False,
+                            edge_ok=edge_ok)
+    where = "emit.c:%d (emitTheObject)" % fn["l"]
+    if esc is None:
+        rep.ok("O5", "kept-c-output-not-removed", sample={"removals under the not-kept branch": len(removes)})
+    else:
+        rep.violation("O5", "kept-c-output-not-removed", where,
+                      "with -Fc in force (emitKeep[FTYPENO_C], not the aldormain unit) a fileRemove is still reached in "
+                      "emitTheObject: part of the C output the user asked to keep (the numbered files of a unit split by -Csmax, "
+                      "which the kept main file and header refer to) is deleted and the compiler exits 0",
+                      detail={"cfg_path": esc[:12]})
+
+
+def o6(rep):
+    """An output file name given by the user (-Fc=<file>: emitOutputFileName[ft]) is the name the output must have when the
+    compiler exits 0.  The routines that move a temporary output to its source-derived name (emitFileRename) or clear the way for
+    that (emitFileRemove) must not touch it, and emitFileName must not hand it to the generated aldormain unit (whose C file is
+    written over it and then removed)."""
+    from .peval import peval
+    f = common.extract("emit.c", trees=["emitFileRename", "emitFileRemove", "emitFileName"],
+                       cfg=["emitFileRename", "emitFileRemove", "emitFileName"])
+
+    def scenario(fname, named, axlmain, target):
+        fn = f.func(fname)
+        cfg = common.CFG(fn)
+
+        def lookup(n, env):
+            if n["k"] == "ArraySubscriptExpr" and (strip(n["c"][0]) or {}).get("n") == "emitOutputFileName":
+                return named
+            if n["k"] == "MemberExpr" and n["n"] == "isAXLmain":
+                return axlmain
+            return None
+
+        def edge_ok(b, s_):
+            ce = cfg.cond_edges(b)
+            if ce is None:
+                return True
+            v = peval(ce[0], {}, lookup)
+            if v is None:
+                return True
+            return s_ == (ce[1] if v else ce[2])
+        if not cfg.events(target):
+            raise AnalysisBroken("%s: the statement looked for is not there" % fname)
+        return cfg.path_avoiding(cfg.entry, target, lambda n: False, edge_ok=edge_ok), fn
+    is_call = lambda name: (lambda n: n["k"] == "CallExpr" and n.get("callee") == name)
+    returns_named = lambda n: n["k"] == "ReturnStmt" and any(y["k"] == "ArraySubscriptExpr" and
+                                                             (strip(y["c"][0]) or {}).get("n") == "emitOutputFileName" for y in walk(n))
+    for key, fname, named, axl, target, msg in (
+            ("named-output-not-renamed", "emitFileRename", 1, 0, is_call("fileRename"),
+             "with a user-supplied output name emitFileRename still renames the file to the source-derived name: `-Fc=out.c -Fo` exits "
+             "0 with t.c and no out.c"),
+            ("named-output-not-preremoved", "emitFileRemove", 1, 0, is_call("fileRemove"),
+             "with a user-supplied output name emitFileRemove still deletes the file of the source-derived name"),
+            ("named-output-not-given-to-aldormain", "emitFileName", 1, 1, returns_named,
+             "emitFileName returns the user-supplied name for the generated aldormain unit too: with -Fx its C file is written over "
+             "the requested output and then removed")):
+        esc, fn = scenario(fname, named, axl, target)
+        if esc is None:
+            rep.ok("O6", key)
+        else:
+            rep.violation("O6", key, "emit.c:%d (%s)" % (fn["l"], fname), msg, detail={"cfg_path": esc[:10]})
+
+
 def run(tier, only=None):
     global _MODES
     rep = common.Report("C18", tier, EXPLANATION)
@@ -523,4 +616,6 @@ def run(tier, only=None):
     check_close_helper(rep, f_file, f_axl)
     rep.assumptions += ["fprintf/fputs/fwrite failures set the stream's sticky error indicator (ISO C), which fileCloseOut tests",
                         "streams are not smuggled out of the opening function other than into libNew"]
+    o5(rep)
+    o6(rep)
     return rep
